@@ -30,4 +30,5 @@ def specs_blocks(tier):
     t = 60000 if tier == "thorough" else 20000
     s = [(FM, "unit_unpack_blocks", {"nb": n, "timeout_ms": t}) for n in ((1, 2, 3, 4) if tier == "thorough" else (2, 3))]
     s += [(FM, "unit_subspaces_from_indices", {"nb": n, "symbolic": sy, "timeout_ms": t}) for n, sy in ((1, False), (2, False), (3, True))]
+    s += [(FM, "unit_extract_diagonal", {"nb": n, "implicit": im, "timeout_ms": t}) for n, im in ((1, False), (2, False), (3, True))]
     return s
